@@ -329,7 +329,8 @@ def glyphCache (gloc glat : List Nat) (numGlyphsGraphics : Nat) (preload : Bool)
       | none => return none
       | some gs =>
         let numsubs := (gs.map (·.2)).sum
-        let boxes ← (if numsubs > 0 ∧ T.hasBoxes then preloadBoxes T gloc glat ng 0 else pure none)
+        -- (the pinned tree read the boxes only `if (numsubs > 0 && _boxes)`: a font without sub-boxes then had no boxes when preloaded)
+        let boxes ← (if T.hasBoxes then preloadBoxes T gloc glat ng 0 else pure none)
         let ans := gids.map fun gid =>
           match gs[gid]? with
           | none => GlyphAns.noSuch
